@@ -1,12 +1,14 @@
 -- Root of the HipVerif library: every property module (and, through them, every model, spec,
 -- generated file and lemma library).  `lake build` checks all proofs.
 import HipVerif.Props.C01
+import HipVerif.Props.C01Delegates
 import HipVerif.Props.C02
 import HipVerif.Props.C03
 import HipVerif.Props.C04
 import HipVerif.Props.C04Protocol
 import HipVerif.Props.C05
 import HipVerif.Props.C06
+import HipVerif.Props.C06Doors
 import HipVerif.Props.C07
 import HipVerif.Props.C08
 import HipVerif.Props.C09
@@ -15,6 +17,7 @@ import HipVerif.Props.C11
 import HipVerif.Props.C11Core
 import HipVerif.Props.C12
 import HipVerif.Props.C13
+import HipVerif.Props.C13Slots
 import HipVerif.Props.C14
 import HipVerif.Props.C15
 import HipVerif.Props.C16
